@@ -7,7 +7,7 @@ PROP = {
     "required_theorems": ["Verif.Properties.C12.C12_Word8_add", "Verif.Properties.C12.C12_Word16_mul", "Verif.Properties.C12.C12_Word64_mul", "Verif.Properties.C12.C12_Word128_sub", "Verif.Properties.C12.C12_Word256_mul", "Verif.Properties.C12.C12_Word32_div", "Verif.Properties.C12.C12_only_divZero"],
     "streams": [
         {"name": "num", "driver": "drv_num",
-         "quick": {"n": 400}, "thorough": {"n": 20000, "seeds": 4}},
+         "quick": {"n": 400}, "thorough": {"n": 8000, "seeds": 3}},
     ],
     "exhaustive": True,
     "technique": "Lean 4 theorems about definitions regenerated from interpreter/value_*.go by a semantic Go->Lean "
